@@ -95,9 +95,11 @@ static int run_env(const char * var, const char * val, int * nw_out) {
     if (write(pfd[1], &nw, sizeof nw) < 0) {}
     _exit(0);
   }
-  close(pfd[1]); int nw = -1; if (read(pfd[0], &nw, sizeof nw) != sizeof nw) nw = -1; close(pfd[0]);
-  int st; waitpid(pid, &st, 0);
+  close(pfd[1]);
+  int st; int hung = sq_wait_child(pid, 120, &st);
+  int nw = -1; if (read(pfd[0], &nw, sizeof nw) != sizeof nw) nw = -1; close(pfd[0]);
   *nw_out = nw;
+  if (hung) return -3;
   if (WIFSIGNALED(st)) return WTERMSIG(st) == SIGALRM ? -3 : -2;
   return WEXITSTATUS(st) ? -4 : 0;
 }
@@ -137,6 +139,20 @@ static void env_var(const char * var, int maxlen) {
 static int count_os_threads_once(void) { int n = 0; DIR * d = opendir("/proc/self/task"); if (!d) return -1; struct dirent * e; while ((e = readdir(d))) if (e->d_name[0] != '.') n++; closedir(d); return n; }
 /* pthread_join returns when the kernel clears the tid word, a moment before the task leaves /proc: poll briefly */
 static int count_os_threads(void) { int n = 0; for (int i = 0; i < 200; i++) { n = count_os_threads_once(); if (n == 1) break; usleep(1000); } return n; }
+/* every requested worker must really schedule: n threads that each hold their worker until all n are occupied at once */
+static volatile int occ_arrived, occ_need;
+static void * occ_body(void * a) {
+  (void)a; __sync_fetch_and_add(&occ_arrived, 1);
+  double t0 = sq_now();
+  while (occ_arrived < occ_need && sq_now() - t0 < 30.0) { /* spin without yielding: only another worker can run the others */ }
+  return (void *)(long)(occ_arrived >= occ_need);
+}
+static int occupy_all_workers(int nw) {
+  myth_thread_t th[8]; occ_arrived = 0; occ_need = nw; int ok = 1;
+  for (int i = 0; i < nw; i++) th[i] = myth_create(occ_body, 0);
+  for (int i = 0; i < nw; i++) { void * r = 0; myth_join(th[i], &r); if (!r) ok = 0; }
+  return ok ? nw : occ_arrived;
+}
 static const char * const OPN[] = { "init_ex(1)", "init_ex(2)", "init_ex(3)", "create+join", "fini", "query", "init()" };
 typedef struct { pid_t pid; int fd; int ops[8]; int n; } inflight_t;
 static void start_hist(inflight_t * f, const int * ops, int n) {
@@ -151,7 +167,8 @@ static void start_hist(inflight_t * f, const int * ops, int n) {
       int op = ops[i];
       if (op <= 2) { myth_globalattr_t ga[1]; myth_globalattr_init(ga); myth_globalattr_set_n_workers(ga, op + 1); myth_globalattr_set_bind_workers(ga, 0); myth_init_ex(ga); if (!inited) { inited = 1; nw = op + 1; dflt = nw; } }
       else if (op == 6) { myth_init(); if (!inited) { inited = 1; nw = dflt; } }
-      else if (op == 3) { myth_thread_t t = myth_create(nop, (void *)9); void * r = 0; myth_join(t, &r); if (!inited) { inited = 1; nw = dflt; } if (r != (void *)9) { bad = 1; snprintf(m, sizeof m, "step %d: create+join delivered %p", i, r); } }
+      else if (op == 3) { myth_thread_t t = myth_create(nop, (void *)9); void * r = 0; myth_join(t, &r); if (!inited) { inited = 1; nw = dflt; } if (r != (void *)9) { bad = 1; snprintf(m, sizeof m, "step %d: create+join delivered %p", i, r); }
+	if (!bad && nw <= 3) { int k = occupy_all_workers(nw); if (k != nw) { bad = 1; snprintf(m, sizeof m, "step %d: %d workers requested, but only %d of them ever ran a thread (the others do not schedule)", i, nw, k); } } }
       else if (op == 4) { myth_fini(); if (inited) { inited = 0; int c = count_os_threads(); if (c != 1) { bad = 1; snprintf(m, sizeof m, "step %d: %d OS threads remain after myth_fini", i, c); } } }
       else { int q = myth_get_num_workers(); if (!inited) { inited = 1; nw = dflt; } int w = myth_get_worker_num(); if (q != nw || w < 0 || w >= q) { bad = 1; snprintf(m, sizeof m, "step %d: num_workers=%d (requested %d), worker_num=%d", i, q, nw, w); } }
       if (!bad && inited) { int q = myth_get_num_workers(); if (q != nw) { bad = 1; snprintf(m, sizeof m, "step %d (%s): runs with %d workers, requested %d", i, OPN[op], q, nw); } }
@@ -162,8 +179,9 @@ static void start_hist(inflight_t * f, const int * ops, int n) {
   close(pfd[1]); f->pid = pid; f->fd = pfd[0];
 }
 static int collect_hist(inflight_t * f, char * msg, size_t msz) {
+  int st; int hung = sq_wait_child(f->pid, 100, &st);
   ssize_t k = read(f->fd, msg, msz - 1); if (k < 0) k = 0; msg[k] = 0; close(f->fd);
-  int st; waitpid(f->pid, &st, 0);
+  if (hung) { snprintf(msg, msz, "history hangs"); return 1; }
   if (WIFSIGNALED(st)) { snprintf(msg, msz, "%s", WTERMSIG(st) == SIGALRM ? "history hangs" : "history crashes"); return 1; }
   return WEXITSTATUS(st);
 }
@@ -183,20 +201,23 @@ static void hist_all(int depth) {
     memset(idx, 0, sizeof idx);
     for (;;) {
       for (int i = 0; i < len; i++) ops[i] = idx[i];
+      if (SQ.nfound >= 8) { SQ.exhaustive = 0; goto done; }    /* enough counterexamples: stop enumerating (hanging histories are slow) */
       if (nfl == 12) hist_drain(fl, &nfl);
       start_hist(&fl[nfl++], ops, len);
       int k = len - 1; while (k >= 0 && ++idx[k] == 7) { idx[k] = 0; k--; }
       if (k < 0) break;
     }
   }
+done:
   hist_drain(fl, &nfl);
+  if (SQ.nfound >= 8) return;
   /* every worker count 1..64 once */
   for (int nw = 1; nw <= 64; nw++) {
     pid_t pid = fork();
     if (pid == 0) { alarm(180); myth_globalattr_t ga[1]; myth_globalattr_init(ga); myth_globalattr_set_n_workers(ga, nw); myth_globalattr_set_bind_workers(ga, 0); myth_init_ex(ga);
       int ok = myth_get_num_workers() == nw; myth_thread_t t = myth_create(nop, 0); myth_join(t, 0); int w = myth_get_worker_num(); ok = ok && w >= 0 && w < nw; myth_fini(); ok = ok && count_os_threads() == 1; _exit(ok ? 0 : 1); }
-    int st; waitpid(pid, &st, 0); SQ.states++; SQ.evaluations++; SQ.transitions += 4;
-    if (!WIFEXITED(st) || WEXITSTATUS(st)) { char key[60]; snprintf(key, sizeof key, "n_workers=%d via attribute", nw); sq_found(key, "", "init/run/fini with %d workers failed", nw); }
+    int st; int hung = sq_wait_child(pid, 150, &st); SQ.states++; SQ.evaluations++; SQ.transitions += 4;
+    if (hung || !WIFEXITED(st) || WEXITSTATUS(st)) { char key[60]; snprintf(key, sizeof key, "n_workers=%d via attribute", nw); sq_found(key, "", "init/run/fini with %d workers failed", nw); }
   }
   sq_detail("%ld init/fini histories to depth %d + worker counts 1..64; ", hist_cases, depth);
 }
